@@ -3,6 +3,7 @@
 #include <memory>
 #include "opentelemetry/nostd/span.h"
 #include "opentelemetry/sdk/common/atomic_unique_ptr.h"
+#include "opentelemetry/sdk/common/circular_buffer_range.h"
 #include "opentelemetry/sdk/trace/recordable.h"
 
 namespace canary
@@ -49,16 +50,18 @@ public:
   }
   size_t size() const noexcept { return head_ - tail_ + 1; }
   // geometry canary (C11.R5): the wrapped part is handed out before the part at the tail
-  opentelemetry::nostd::span<AtomicUniquePtr<T>> PeekFirst() noexcept
+  opentelemetry::sdk::common::CircularBufferRange<AtomicUniquePtr<T>> PeekFirst() noexcept
   {
     uint64_t tail_index = tail_ % capacity_;
     uint64_t head_index = head_ % capacity_;
     auto data           = data_.get();
     if (tail_index <= head_index)
     {
-      return opentelemetry::nostd::span<AtomicUniquePtr<T>>{data + tail_index, static_cast<std::size_t>(head_index - tail_index)};
+      return opentelemetry::sdk::common::CircularBufferRange<AtomicUniquePtr<T>>{
+          opentelemetry::nostd::span<AtomicUniquePtr<T>>{data + tail_index, static_cast<std::size_t>(head_index - tail_index)}};
     }
-    return opentelemetry::nostd::span<AtomicUniquePtr<T>>{data, static_cast<std::size_t>(head_index)};
+    return opentelemetry::sdk::common::CircularBufferRange<AtomicUniquePtr<T>>{
+        opentelemetry::nostd::span<AtomicUniquePtr<T>>{data, static_cast<std::size_t>(head_index)}};
   }
 
 private:
